@@ -78,6 +78,9 @@ def ensure(verbose=True):
                 for p in (base + SOSUF, base + ".cpp"):
                     if os.path.exists(p):
                         os.remove(p)
+            # never reuse object files: they may stem from a different source tree (WHATSHAP_REPO) or predate
+            # an edit whose mtime is older than the object (rsync preserves mtimes)
+            shutil.rmtree(os.path.join(tree, "build"), ignore_errors=True)
             env = dict(os.environ, SETUPTOOLS_SCM_PRETEND_VERSION="0.0.verif")
             env.pop("PYTHONPATH", None)
             r = subprocess.run([PY, "setup.py", "build_ext", "--inplace", "-j", "16"], cwd=tree, env=env,
